@@ -263,6 +263,31 @@ def check_analyzers(case) -> Outcome:
     return o
 
 
+# ---- cases stuck in C code (watchdog) ---------------------------------------------------------------------
+def on_stuck(case, unit):
+    """called by the runner for a case that did not return within the worker's watchdog time: CPU-budget verdict"""
+    from ..observe import cpu_budget_verdict
+
+    data = case.get("data", case.get("text"))
+    if data is None:
+        return None
+    v = cpu_budget_verdict(data, case.get("depth"))
+    if v.get("verdict") == "cpu-budget":
+        return "hang:cpu-budget@" + _site(v.get("where", "?")), v
+    return None
+
+
+# ---- pumped inputs: a short token sequence repeated many times (catastrophic regex backtracking, quadratic scanners) --
+PUMP_TOKENS = S.TOK + S.CMD_PIECES + [b"`\"", b"\\\"", b'""', b"''", b"`", b"a", b"aaaa", b"A+/", b"%41", b"&#65;", b"\x00a", b"0x41,", b"AAAA\r\n", b"ab.", b"a-", b"/ab", b"\\ab", b" ^", b"('", b"')"]
+
+
+def pump_cases():
+    opener = st.sampled_from([b"", b'"', b"'", b"(", b"CreateObject(", b"cmd /c ", b'Write-Host "', b"powershell -e ", b"atob('", b"unescape('", b"http://", b"\\\\", b"x = '"])
+    unit_ = st.lists(st.sampled_from(PUMP_TOKENS), min_size=1, max_size=3).map(b"".join)
+    closer = st.sampled_from([b"", b'"', b"'", b")", b"')", b"\x00", b" !", b"\n"])
+    return st.tuples(opener, unit_, st.sampled_from([12, 24, 32, 48, 64, 96]), closer, st.sampled_from([None, 2])).map(lambda t: {"data": (t[0] + t[1] * t[2] + t[3])[:4096], "depth": t[4]})
+
+
 # ---- enumerated parameter edges ---------------------------------------------------------------------
 def edge_inputs():
     alnum = b"0123456789abcdefghijklmnopqrstuvwxyzABCDEFGHIJKLMNOPQRSTUVWXYZ"
@@ -342,7 +367,7 @@ def run_fuzz(which):
         import sys
         import tempfile
 
-        from .. import VERIF_DIR
+        from .. import VERIF_DIR, die_with_parent
 
         base = os.path.join(VERIF_DIR, ".scratch")
         os.makedirs(base, exist_ok=True)
@@ -371,7 +396,7 @@ def run_fuzz(which):
                     for t in S.TOK:
                         f.write('"' + "".join("\\x%02x" % c for c in t) + '"\n')
                 args.append("-dict=" + dpath)
-            p = subprocess.run([sys.executable, "-m", "vf.fuzz_target", which, out, corpus] + args, cwd=VERIF_DIR, capture_output=True, text=True, timeout=budget + 300)
+            p = subprocess.run([sys.executable, "-m", "vf.fuzz_target", which, out, corpus] + args, cwd=VERIF_DIR, capture_output=True, text=True, timeout=budget + 300, preexec_fn=die_with_parent)
             m = re.search(r"stat::number_of_executed_units:\s*(\d+)", p.stderr)
             execs = int(m.group(1)) if m else 0
             m2 = re.findall(r"cov: (\d+)", p.stderr)
@@ -415,6 +440,7 @@ def units(tier):
     return [
         Unit("soup", "hyp", check=check_scan, strategy=soup_cases, budget=30000 if q else 400000),
         Unit("tokens", "hyp", check=check_scan, strategy=token_cases, budget=30000 if q else 400000),
+        Unit("pump", "hyp", check=check_scan, strategy=lambda: S.cached("c01.pump", pump_cases), budget=16000 if q else 300000),
         Unit("url_mut", "hyp", check=check_scan, strategy=lambda: S.cached("c01.url_mut", url_mut_cases), budget=30000 if q else 500000),
         Unit("pe", "hyp", check=check_scan, strategy=pe_cases, budget=4000 if q else 60000),
         Unit("shell_cuts", "hyp", check=check_shell_cuts, strategy=shell_texts, budget=24000 if q else 400000),
